@@ -188,7 +188,19 @@ fn cmd_check(args: &[String]) -> i32 {
         .unwrap_or(1.0);
     let (id_static, profiles, scen_q, scen_t): (&'static str, Vec<Profile>, usize, usize) = match id {
         "C05" => ("C05", vec![Profile::ControlFlow], 9000, 150_000),
-        "C11" => ("C11", vec![Profile::ControlFlow], 4000, 60_000),
+        // (run-time errors of file and device statements have positions, too)
+        "C11" => (
+            "C11",
+            vec![
+                Profile::ControlFlow,
+                Profile::ControlFlow,
+                Profile::ControlFlow,
+                Profile::Files,
+                Profile::Print,
+            ],
+            5000,
+            75_000,
+        ),
         "C15" => ("C15", vec![Profile::ControlFlow, Profile::ControlFlow, Profile::Print, Profile::Files], 8000, 120_000),
         "C16" => ("C16", vec![Profile::Print], 30000, 400_000),
         "C18" => ("C18", vec![Profile::Files], 12000, 200_000),
